@@ -381,10 +381,14 @@ class Worker:
                     self._tasks.pop(key, None)
 
         # Remove all tasks that are children of `addr` from delayed tasks
-        self._delayed_tasks = [
-            t for t in self._delayed_tasks
-            if not t.is_descendant_of(addr)
-        ]
+        # The main thread pops from this list concurrently, so it is
+        # edited in place; replacing it could bring back a task that the
+        # main thread has started in the meantime.
+        for t in [t for t in self._delayed_tasks if t.is_descendant_of(addr)]:
+            try:
+                self._delayed_tasks.remove(t)
+            except ValueError:
+                pass
 
     def _handle_communicate(
         self,
